@@ -256,9 +256,11 @@ def validator(P, E, chk):
     first = hb.succs[0]
     latch = [p for p in hb.preds if p in body and p != head]
     cond = sk(hb.term["cond"])
-    ivar = pp(sk(cond["a"][0])) if cond.get("k") == "Bin" else None
+    ivar = pp(sk(cond["a"][0])) if cond.get("k") == "Bin" and sk(cond["a"][0]).get("k") == "Ref" and \
+        (sk(cond["a"][0]).get("t") or {}).get("k") == "int" and cond["op"] in ("<", "<=", "!=") else None
     if ivar is None:
-        raise AnalysisBroken("C17.R4: loop counter not recognised")
+        raise AnalysisBroken("C17.R4: the validator's loop is not an index compared with the length (%s): the per-character "
+                             "tabulation does not apply" % pp(cond)[:40])
     allowed = set(b"abcdefghijklmnopqrstuvwxyzABCDEFGHIJKLMNOPQRSTUVWXYZ0123456789-.")
     wrong = []
     ncases = 0
